@@ -95,7 +95,7 @@ pub trait Tbl:
     fn t_all_functions(n: usize) -> Box<dyn Iterator<Item = Self>>;
     fn t_iter_from(start: &Self) -> Box<dyn Iterator<Item = Self>>;
     /// an `Iterator`-method script (see iterprobe.rs) on the concrete iterator type, fresh or positioned
-    fn t_iter_script(n: usize, start: Option<&Self>, script: &[(u64, u64)]) -> Vec<crate::iterprobe::Obs>;
+    fn t_iter_script(n: usize, start: Option<&Self>, script: &[(u64, u64)], expect: Option<&crate::iterprobe::Expect>) -> Vec<crate::iterprobe::Obs>;
     /// plain `next()` calls only: does the (fresh or positioned) iterator end within `limit` items?
     fn t_iter_ends_within(n: usize, start: Option<&Self>, limit: u128) -> bool;
     fn t_from_cofactors(c0: &Self, c1: &Self, i: usize) -> Self;
@@ -410,10 +410,10 @@ impl Tbl for Lut {
     fn t_iter_from(start: &Self) -> Box<dyn Iterator<Item = Self>> {
         Box::new(Lut::verif_iter_from(start))
     }
-    fn t_iter_script(n: usize, start: Option<&Self>, script: &[(u64, u64)]) -> Vec<crate::iterprobe::Obs> {
+    fn t_iter_script(n: usize, start: Option<&Self>, script: &[(u64, u64)], expect: Option<&crate::iterprobe::Expect>) -> Vec<crate::iterprobe::Obs> {
         match start {
-            None => crate::iterprobe::run_script(Lut::all_functions(n), script),
-            Some(s) => crate::iterprobe::run_script(Lut::verif_iter_from(s), script),
+            None => crate::iterprobe::run_script(Lut::all_functions(n), script, expect),
+            Some(s) => crate::iterprobe::run_script(Lut::verif_iter_from(s), script, expect),
         }
     }
     fn t_iter_ends_within(n: usize, start: Option<&Self>, limit: u128) -> bool {
@@ -494,11 +494,11 @@ impl<const N: usize, const T: usize> Tbl for StaticLut<N, T> {
     fn t_iter_from(start: &Self) -> Box<dyn Iterator<Item = Self>> {
         Box::new(Self::verif_iter_from(start))
     }
-    fn t_iter_script(n: usize, start: Option<&Self>, script: &[(u64, u64)]) -> Vec<crate::iterprobe::Obs> {
+    fn t_iter_script(n: usize, start: Option<&Self>, script: &[(u64, u64)], expect: Option<&crate::iterprobe::Expect>) -> Vec<crate::iterprobe::Obs> {
         assert_eq!(n, N, "harness: size dispatch");
         match start {
-            None => crate::iterprobe::run_script(Self::all_functions(), script),
-            Some(s) => crate::iterprobe::run_script(Self::verif_iter_from(s), script),
+            None => crate::iterprobe::run_script(Self::all_functions(), script, expect),
+            Some(s) => crate::iterprobe::run_script(Self::verif_iter_from(s), script, expect),
         }
     }
     fn t_iter_ends_within(n: usize, start: Option<&Self>, limit: u128) -> bool {
